@@ -45,6 +45,7 @@ type spec struct {
 	ExtraOneShot      bool
 	ExtraQuickRuns    int
 	ExtraThoroughRuns int
+	ExtraChunk        int
 }
 
 var oneShotHarness = map[string]bool{"H-CLUSTER": true}
@@ -62,7 +63,7 @@ func init() {
 	specs["C07"] = dkvSpec(12000, 600000)
 	specs["C08"] = dkvSpec(8000, 400000, "checkpoint", "verify-restore", "switch")
 	c09 := dkvSpec(2500, 100000, "gc", "retain", "verify-restore")
-	c09.ExtraHarness, c09.ExtraQuickRuns, c09.ExtraThoroughRuns = "H-OP", 1500, 60000
+	c09.ExtraHarness, c09.ExtraQuickRuns, c09.ExtraThoroughRuns, c09.ExtraChunk = "H-OP", 1200, 60000, 20 // forced GC steps get slower as a process ages: short-lived workers
 	c09.Rule += "; plus H-OP runs: 1-4 real operators rescaled M->N through Assembly.Deploy so that they share SST files, with compaction, retention updates and scheduled garbage-collection steps (table cleanups ask the neighbours through OperatorPartition / NeedsTable); oracle = reference handler state after the GC steps and independent read-back of the next checkpoints"
 	specs["C09"] = c09
 	specs["C18"] = dkvSpec(8000, 400000, "compaction-step", "flush-during-compaction")
@@ -96,7 +97,9 @@ func init() {
 	}
 	specs["C02"] = opSpec(3000, 150000, "operator-ack", "checkpoint-verified")
 	specs["C03"] = opSpec(3000, 150000, "checkpoint-verified")
-	specs["C06"] = opSpec(1500, 60000, "checkpoint-verified", "operator-killed", "operator-redeployed-in-place")
+	c06 := opSpec(1500, 60000, "checkpoint-verified", "operator-killed", "operator-redeployed-in-place")
+	c06.Chunk = 20
+	specs["C06"] = c06
 	c11 := opSpec(3000, 150000, "timer-expired", "checkpoint-verified")
 	c11.ExtraHarness, c11.ExtraOneShot, c11.ExtraQuickRuns, c11.ExtraThoroughRuns = "H-CLUSTER", true, 250, 8000
 	c11.Rule += "; plus H-CLUSTER runs (part a: every source runner's watermark per stream is monotone and stays below the largest timestamp it has keyed)"
@@ -222,6 +225,8 @@ func main() {
 					harness = sp.ExtraHarness
 					if sp.ExtraOneShot {
 						to = from + 1
+					} else if sp.ExtraChunk > 0 {
+						to = min(from+sp.ExtraChunk, runs)
 					}
 				}
 				next = to
